@@ -326,6 +326,7 @@ def prove_many(ctx, modules, required, allow_extra_axioms):
 def run(ctx):
     t0 = time.time()
     h = ctx.build_harness("c02")
+    wa = ctx.build_wa()          # built together with the harness: both must come from the same state of the tree
     B = Both(ctx, h)
     quick = ctx.tier == "quick"
     dist = {}
@@ -465,7 +466,7 @@ def run(ctx):
 
     # ---- 6. whole programs
     from extract import c02_progs as P
-    P.run_programs(ctx, B, h, dist, samples, nontrivial)
+    P.run_programs(ctx, B, h, wa, dist, samples, nontrivial)
 
     dist["t_total_s"] = round(time.time() - t0, 1)
     dist["finding_keys_seen"] = sorted(set(allfound))[:80]
